@@ -152,7 +152,7 @@ func runGateway(g *gen, n int, stubs []*httpStub, rec *recorder) (cases []string
 			stubs[i].sc, stubs[i].onlyOp, stubs[i].notes, stubs[i].noteFail = scripts[i], op, nil, 0
 			stubs[i].mu.Unlock()
 			name, omit := g.cfgName()
-			entries = append(entries, cfgEntry{name: name, omitName: omit, addr: "http://" + stubs[i].addr, ops: valid})
+			entries = append(entries, cfgEntry{name: name, omitName: omit, addr: "http://" + stubs[i].addr, path: "/handler/unset", ops: valid})
 			var os_ []string
 			for _, o := range valid {
 				os_ = append(os_, coqStr(o))
@@ -160,11 +160,15 @@ func runGateway(g *gen, n int, stubs []*httpStub, rec *recorder) (cases []string
 			esCoq = append(esCoq, fmt.Sprintf("(%s, %s)", coqStr(name), coqList(os_)))
 		}
 		gwSession := false
+		attemptNo := 0
 		runOnce := func() (string, []seenReq, string, error) {
+			attemptNo++
+			tok := fmt.Sprintf("g%da%d", k, attemptNo) // a repeated run is a case of its own
 			for i := 0; i < np; i++ {
 				stubs[i].mu.Lock()
-				stubs[i].sc, stubs[i].onlyOp, stubs[i].notes, stubs[i].noteFail = scripts[i], op, nil, 0
+				stubs[i].sc, stubs[i].onlyOp, stubs[i].notes, stubs[i].noteFail, stubs[i].token = scripts[i], op, nil, 0, tok
 				stubs[i].mu.Unlock()
+				entries[i].path = "/handler/" + tok
 			}
 			var srv *sysServer
 			for attempt := 0; attempt < 4; attempt++ {
@@ -360,7 +364,7 @@ func runGateway(g *gen, n int, stubs []*httpStub, rec *recorder) (cases []string
 		}
 		for i := 0; i < np; i++ {
 			stubs[i].mu.Lock()
-			stubs[i].sc, stubs[i].onlyOp = nil, ""
+			stubs[i].sc, stubs[i].onlyOp, stubs[i].token = nil, "", ""
 			stubs[i].mu.Unlock()
 		}
 		// c0: what the first consulted plugin was shown (the virtual client's own message)
